@@ -6,7 +6,14 @@ sys.path.insert(0, HERE); sys.path.insert(0, os.path.join(HERE, 'tools'))
 import check, unit as U
 from cxxast import AST, Unsupported, dump_ast
 uid = sys.argv[1]; variant = sys.argv[3] if len(sys.argv) > 3 else 'include'
-u = [x for x in check.load_units() if x['id'] == uid][0]
+import importlib
+allu = check.load_units()
+for m in check.SPEC_MODULES:
+    try:
+        allu += getattr(importlib.import_module(m), 'DRAFTS', [])
+    except ModuleNotFoundError:
+        pass
+u = [x for x in allu if x['id'] == uid][0]
 cache = '/tmp/w/astcache'; os.makedirs(cache, exist_ok=True)
 key = check.ast_key(u['witness'], variant, check.witness_defines(u))
 path = os.path.join(cache, key + '.json')
